@@ -77,12 +77,21 @@ def dec_obs(d):
 
 def seg_case_term(r):
     """Gallina term (bool) comparing the model with one harness `seg` record; None when the record cannot be modelled."""
-    if not r.get("enc_ok") or r.get("dec", {}).get("class") != "ok":
+    if not r.get("enc_ok"):
         return None
     d = r["desc"]
     comp = r["comp"] == "lz4"
     cph = r.get("cmp_hex") if comp else None
     cplen = r.get("cmp_len", 0) if comp else 0
+    if r.get("dec", {}).get("class") == "err":
+        # the implementation does not decode what it encoded.  When the third-party block is itself not an encoding of the
+        # payload (known class lz4-offset-65536) the model's oracle cannot mimic it: not modellable.  Otherwise the model,
+        # which has the size checks of decodeSegmentPayload and no others, must fail as well.
+        if (r.get("diag") or {}).get("kind") == "lz4-block-corrupt-above-64KiB":
+            return None
+        return "negb (seg_decodes %s %s %d %d %d %s %s %s)" % (b(comp), b(r["sc"]), PAT[d["pat"]], d["len"], d["seed"], opt_hx(cph), z(cplen), hx(r["rest"]))
+    if r.get("dec", {}).get("class") != "ok":
+        return None
     post = r["post"]
     return "seg_case %s %s %d %d %d %s %s %d %s %s %s (%s, %s, %s) %s %s" % (
         b(comp), b(r["sc"]), PAT[d["pat"]], d["len"], d["seed"], opt_hx(cph), z(cplen), r["total"],
@@ -98,6 +107,48 @@ def raw_case_term(r):
     oi = r.get("oracle_in") if r.get("oracle_ok") else None
     oo = r.get("oracle_out") if r.get("oracle_ok") else None
     return "raw_case %s %s %s %s %s" % (b(r["comp"] == "lz4"), hx(r["hex"]), opt_hx(oi), opt_hx(oo), exp)
+
+
+def judge_segment(r, findings, nontrivial):
+    """The round-trip predicate of C06 (and of the segment part of C08) on one harness record of kind `seg` (descriptor
+    payload, also run through the model) or `segx` (harness-only content class): EncodeSegment succeeds, DecodeSegment of
+    the result succeeds and gives the payload, the flag and consistent lengths back; for `seg` also the independent layout."""
+    k = r["kind"]
+    ln = r["desc"]["len"] if k == "seg" else r.get("plen", r["len"])
+    ident = {"payload": r.get("desc") or {"class": r["class"], "len": r["len"], "seed": r["seed"]}, "self_contained": r["sc"], "compressor": r["comp"]}
+    if not r["enc_ok"]:
+        findings.append(dict(ident, kind="encode-failed", what="EncodeSegment fails on a %d-byte payload (%s)" % (ln, r["comp"])))
+        return
+    d = r["dec"]
+    if d["class"] != "ok":
+        diag = r.get("diag") or {}
+        extra = {"class": "lz4-offset-65536", "algorithm": "lz4", "diagnosis": diag} if diag.get("kind") == "lz4-block-corrupt-above-64KiB" else {}
+        findings.append(dict(ident, kind="roundtrip-decode-" + d["class"], **extra, what="DecodeSegment(EncodeSegment(p)) is %s for a %d-byte payload (%s)" % (d["class"], ln, r["comp"])))
+        return
+    nontrivial.add((k, str(ident)))
+    if not d["payload_eq"]:
+        diag = r.get("diag", {})
+        extra = {"class": "lz4-offset-65536", "algorithm": "lz4"} if diag.get("kind") == "lz4-block-corrupt-above-64KiB" else {}
+        findings.append(dict(ident, kind=diag.get("kind", "roundtrip-payload-differs"), diagnosis=diag, **extra,
+                             what="segment round trip returns a different payload without error (%d bytes, %s); first difference at offset %s" % (ln, r["comp"], diag.get("first_diff"))))
+        return
+    exp_clen = 0
+    if r["comp"] == "lz4" and k == "seg":
+        exp_clen = r["cmp_len"] if r["cmp_len"] <= ln else 0
+    bad = []
+    if d["sc"] != r["sc"]:
+        bad.append("flag")
+    if d["ulen"] != ln or d["plen"] != ln:
+        bad.append("uncompressed length")
+    if k == "seg" and d["clen"] != exp_clen:
+        bad.append("compressed length")
+    if k == "seg" and d["rest"] * 2 != len(r["rest"]):
+        bad.append("bytes after the segment")
+    if bad:
+        findings.append(dict(ident, kind="roundtrip-header-differs", fields=bad, decoded=d, what="decoded %s inconsistent with the encoded segment (%d bytes, %s)" % (", ".join(bad), ln, r["comp"])))
+    if k == "seg" and not (r.get("ref_ok") and r.get("body_ok")):
+        findings.append(dict(ident, kind="layout-differs-from-specification", emitted=r.get("full") or r.get("head"), reference=r.get("ref_hex"),
+                             what="emitted bytes differ from the v5 framing layout computed independently (%d bytes, %s): header+crc24 %s trailer %s" % (ln, r["comp"], r.get("head"), r.get("trailer"))))
 
 
 def eval_cases(name, terms, shards=4, weight=None):
